@@ -386,7 +386,22 @@ def _system_probe(program, folder, rep):
                         (("genexp", plain(c_),
                           ((plain(("items", TABLES)),
                             (("not", routed[0]),)),)),), ())
-                oks = oks and m is not None and m["m"] == plain(want)
+                if dim[0] == "const":
+                    # a fixed size handed to SystemInfo (and corrected
+                    # later, if at all): not the extent of the routed chips
+                    oks = False
+                    continue
+                if m is None or not (
+                        m["m"][0] == "call" and
+                        m["m"][1] == ("global", "max") and
+                        len(m["m"][2]) == 1 and
+                        m["m"][2][0][0] in ("genexp", "listcomp",
+                                            "setcomp")):
+                    raise AnalysisError("get_system_info: the size of the "
+                                        "machine is not 1 + max(<coordinate "
+                                        "of each routed chip>) in a form "
+                                        "these rules read")
+                oks = oks and m["m"] == plain(want)
         okg = okg and oks
     rep.check(okg, "C14-R2", qual(gi), "every chip with a P2P route is "
               "probed under its own coordinates; unresponsive chips are "
@@ -780,10 +795,13 @@ def r4_machine(program, rep):
                         st_[2][0][1] == ("attr", INFOV, field) and \
                         st_[2][0][2] == ((("values", SI), ()),):
                     found = True
-        if not found and (val[0] == "mu" or not any(
-                st_[0] == "call" and st_[1] == ("global", "max")
-                for alt in alternatives(val)
-                for st_ in subterms(plain(alt)))):
+        maxes = [st_ for alt in alternatives(val)
+                 for st_ in subterms(plain(alt))
+                 if st_[0] == "call" and st_[1] == ("global", "max")]
+        if not found and (val[0] == "mu" or not maxes or any(
+                not (len(m_[2]) == 1 and m_[2][0][0] in ("genexp",
+                                                         "listcomp"))
+                for m_ in maxes)):
             raise AnalysisError("build_machine: the machine-wide default of "
                                 "a resource is not computed by one max(...) "
                                 "over the chips (e.g. a running maximum); "
@@ -1425,13 +1443,21 @@ def r6_status(program, folder, rep):
                 DATA[2][0] == ("const", "<4I") and RAW_ is not None and \
                 ("comp", DATA, 0) in alts and len(alts) == 2
             # the loop runs while the next pointer is non-zero
+            # (the edge of the loop test that enters the body, of either
+            # polarity: ``while addr`` / ``while not addr == 0``)
+            first_ = TI.cfg.node_of(loops[0].body[0]) if loops[0].body \
+                else None
             wn = [n_ for n_ in TI.cfg.nodes if n_.kind == "assume" and
-                  n_.polarity and not any(_inside(n_.ast, st_)
-                                          for st_ in loops[0].body) and
-                  _inside(n_.ast, loops[0])]
-            oki = oki and len(wn) == 1 and plain(TI.cond(
-                wn[0].ast, wn[0], True)[0]) in (
-                    plain(ADDR), mk_cmp("Eq", plain(ADDR), ("const", 0)))
+                  not any(_inside(n_.ast, st_) for st_ in loops[0].body)
+                  and _inside(n_.ast, loops[0]) and first_ is not None and
+                  TI.cfg.dominates(n_, first_)]
+            okw_ = False
+            if len(wn) == 1:
+                ct_, cp_ = TI.cond(wn[0].ast, wn[0], wn[0].polarity)
+                okw_ = (plain(ct_), cp_) in (
+                    (plain(ADDR), True),
+                    (mk_cmp("Eq", plain(ADDR), ("const", 0)), False))
+            oki = oki and okw_
             # what is appended: data[16:16 + length]
             if oki:
                 RAW = RAW_
